@@ -7,6 +7,11 @@ k-1 (own resolver, cross-checked with urllib's urljoin); at most
 redirectLimit follows; method rules as documented; sensitive headers absent on every request whose
 origin (scheme, host, effective port) differs from the original request's origin.
 
+Also generated: inner-agent Deferreds that are fired synchronously, later, already .called with the chain
+waiting on an unfired Deferred, or fired and pause()d (released in request order); a second chain on the same
+agent object reusing the caller's Headers object (state left over; a mutated caller object is only counted);
+a hop failed by the inner agent (only exactly-once firing is judged, what follows is counted).
+
 Guards (latitude the statement leaves): URIs are compared by components without the fragment and
 with default ports normalised, "" and "/" paths equal; where own resolver and urljoin disagree the
 case is skipped; 307/308 (and 301/302 for the strict agent) on a method other than GET/HEAD may
@@ -33,7 +38,8 @@ ASSUMPTIONS = ["trusted base: the 40-line RFC 3986 5.2.2 resolver in this module
                "the inner agent is a fake that answers the k-th request with the k-th scripted response"]
 SHARDS = {"quick": 4, "thorough": 16}
 FLOORS = {"chains": 2000, "hops_checked": 3000, "relative_hops_after_first": 300, "cross_origin_requests_checked": 500,
-          "sensitive_header_withheld": 200, "limit_failures": 50, "no_location_failures": 30, "method_switch_checked": 100}
+          "sensitive_header_withheld": 200, "limit_failures": 50, "no_location_failures": 30, "method_switch_checked": 100,
+          "chains_with_called_but_unfinished_inner_deferreds": 1000, "agent_reuse_chains": 500, "inner_failure_chains": 100}
 READY = True
 
 REDIRECTS = (301, 302, 303, 307, 308)
@@ -210,7 +216,9 @@ def gen_case(rng):
     use_headers = rng.random() < 0.9
     configured = rng.choice([[], ["X-Api-Key"], ["x-api-key"], ["X-API-KEY", "X-Other"]])
     return {"agent": agent, "method": method, "limit": limit, "start": start, "chain": chain, "final": final,
-            "headers": hdrs if use_headers else None, "configured": configured, "sync": rng.random() < 0.5}
+            "headers": hdrs if use_headers else None, "configured": configured,
+            "dkinds": [rng.choice(DKINDS) for _ in range(n + 2)] if rng.random() < 0.7 else [rng.choice(["sync", "later"])] * (n + 2),
+            "fail_at": rng.randrange(n + 1) if rng.random() < 0.05 else None}
 
 
 # -------------------------------------------------------------------------------------- harness
@@ -238,41 +246,85 @@ class FakeRequest:
         self.method, self.absoluteURI, self.headers = method, absoluteURI, headers
 
 
-def execute(case):
-    from twisted.internet.defer import Deferred
+DKINDS = ["sync", "sync", "later", "later", "called-waiting", "fired-paused"]
+
+
+class InnerFailure(Exception):
+    """What the scripted inner agent fails a hop with (case['fail_at'])."""
+
+
+def execute(case, shared=None):
+    """Run one chain.  shared: {'agent', 'headers'} from an earlier chain on the same agent object."""
+    from twisted.internet.defer import Deferred, succeed
     from twisted.web import client
     from twisted.web.http_headers import Headers
 
     script = [(c, l) for c, l in case["chain"]] + [(case["final"], None)]
+    dkinds = case.get("dkinds") or ["sync" if case.get("sync", True) else "later"] * (len(script) + 1)
     recorded = []
-    pending = []
+    pending = []  # release callables, in request order
     responses = []
+
+    def answer(method, uri, headers, bodyProducer):
+        k = len(recorded)
+        recorded.append({"method": method, "uri": uri, "headers": None if headers is None else
+                         [(n, list(v)) for n, v in headers.getAllRawHeaders()], "bodyProducer": bodyProducer is not None})
+        code, loc = script[k] if k < len(script) else (200, None)
+        h = Headers()
+        if loc is not None:
+            h.addRawHeader(b"location", loc.encode("latin-1"))
+        resp = FakeResponse(code, h, k, FakeRequest(method, uri, headers))
+        responses.append(resp)
+        value = resp
+        if case.get("fail_at") == k:
+            from twisted.python.failure import Failure
+
+            value = Failure(InnerFailure("scripted failure of hop %d" % k))
+        kind = dkinds[k] if k < len(dkinds) else "sync"
+        if kind == "sync":
+            d = Deferred()
+            d.callback(value) if value is resp else d.errback(value)
+            return d
+        if kind == "later":
+            d = Deferred()
+            pending.append(lambda: d.callback(value) if value is resp else d.errback(value))
+            return d
+        if kind == "called-waiting":  # already .called, but its chain waits on an unfired Deferred
+            inner = Deferred()
+            d = succeed(None)
+            d.addCallback(lambda _: inner)
+            pending.append(lambda: inner.callback(value) if value is resp else inner.errback(value))
+            return d
+        d = Deferred()  # fired, then pause()d
+        d.callback(value) if value is resp else d.errback(value)
+        d.pause()
+        pending.append(d.unpause)
+        return d
 
     class Inner:
         def request(self, method, uri, headers=None, bodyProducer=None):
-            k = len(recorded)
-            recorded.append({"method": method, "uri": uri, "headers": None if headers is None else
-                             [(n, list(v)) for n, v in headers.getAllRawHeaders()], "bodyProducer": bodyProducer is not None})
-            code, loc = script[k] if k < len(script) else (200, None)
-            h = Headers()
-            if loc is not None:
-                h.addRawHeader(b"location", loc.encode("latin-1"))
-            resp = FakeResponse(code, h, k, FakeRequest(method, uri, headers))
-            responses.append(resp)
-            d = Deferred()
-            if case["sync"]:
-                d.callback(resp)
-            else:
-                pending.append((d, resp))
-            return d
+            return self.answer(method, uri, headers, bodyProducer)
 
-    cls = client.RedirectAgent if case["agent"] == "strict" else client.BrowserLikeRedirectAgent
-    ag = cls(Inner(), redirectLimit=case["limit"], sensitiveHeaderNames=[c.encode() for c in case["configured"]])
+    if shared is None or "agent" not in shared:
+        cls = client.RedirectAgent if case["agent"] == "strict" else client.BrowserLikeRedirectAgent
+        inner = Inner()
+        ag = cls(inner, redirectLimit=case["limit"], sensitiveHeaderNames=[c.encode() for c in case["configured"]])
+        if shared is not None:
+            shared["agent"], shared["inner"] = ag, inner
+    else:
+        ag, inner = shared["agent"], shared["inner"]
+    inner.answer = answer
     headers = None
     if case["headers"] is not None:
-        headers = Headers()
-        for n, v in case["headers"]:
-            headers.addRawHeader(n.encode(), v.encode())
+        if shared is not None and shared.get("headers") is not None:
+            headers = shared["headers"]  # the caller-owned Headers object of the earlier chain, reused
+        else:
+            headers = Headers()
+            for n, v in case["headers"]:
+                headers.addRawHeader(n.encode(), v.encode())
+            if shared is not None:
+                shared["headers"] = headers
+                shared["headers_snapshot"] = sorted((n, list(v)) for n, v in headers.getAllRawHeaders())
     result = []
     raised = None
     try:
@@ -280,8 +332,7 @@ def execute(case):
         d.addBoth(result.append)
         steps = 0
         while pending and steps < 64:
-            pd, resp = pending.pop(0)
-            pd.callback(resp)
+            pending.pop(0)()
             steps += 1
     except Exception as e:
         raised = "%s: %s" % (type(e).__name__, e)
@@ -329,6 +380,8 @@ def check(ctx, case, recorded, result, raised, responses):
     script = case["chain"] + [(case["final"], None)]
     start_origin = origin(case["start"])
     for k in range(1, len(recorded)):
+        if case.get("fail_at") is not None and k > case["fail_at"]:
+            break
         prev, cur = recorded[k - 1], recorded[k]
         if k - 1 >= len(script):
             return bad("request-after-final", "a request was issued after the scripted final response")
@@ -378,6 +431,19 @@ def check(ctx, case, recorded, result, raised, responses):
                 ctx.count("sensitive_header_withheld")
     # ---- the outcome
     n = len(recorded)
+    fa = case.get("fail_at")
+    if fa is not None and n > fa:
+        # the inner agent failed hop `fa`: the statement does not say what follows; exactly-once firing was checked above
+        ctx.count("inner_failure_chains")
+        from twisted.python.failure import Failure as _F
+
+        if isinstance(result[0], _F) and result[0].check(InnerFailure):
+            ctx.count("inner_failure_propagated")
+        else:
+            ctx.count("inner_failure_other_outcome_unjudged")
+        if n > fa + 1:
+            ctx.count("requests_after_failed_hop_unjudged")
+        return True
     last_code, last_loc = script[n - 1] if n - 1 < len(script) else (200, None)
     res = result[0]
     from twisted.python.failure import Failure
@@ -413,8 +479,24 @@ def check(ctx, case, recorded, result, raised, responses):
     return True
 
 
-def run_case(ctx, case, sample=False):
-    recorded, result, raised, responses = execute(case)
+def run_case(ctx, case, sample=False, second=None):
+    shared = {} if second is not None else None
+    recorded, result, raised, responses = execute(case, shared)
+    if any(k in ("called-waiting", "fired-paused") for k in (case.get("dkinds") or [])[:len(recorded)]):
+        ctx.count("chains_with_called_but_unfinished_inner_deferreds")
+    if second is not None:
+        # a second chain on the SAME agent object (and, if both send headers, the same caller-owned Headers object)
+        second = dict(second, agent=case["agent"], limit=case["limit"], configured=case["configured"])
+        if second["headers"] is not None and case["headers"] is not None:
+            second["headers"] = case["headers"]
+        ctx.count("agent_reuse_chains")
+        if shared.get("headers") is not None:
+            now = sorted((n, list(v)) for n, v in shared["headers"].getAllRawHeaders())
+            if now != shared["headers_snapshot"]:
+                ctx.count("caller_headers_mutated_unjudged")
+        r2 = execute(second, shared)
+        ctx.evaluated()
+        check(ctx, second, *r2)
     ctx.evaluated()
     if case["chain"]:
         ctx.distinct((case["agent"], case["method"], case["limit"], case["start"], tuple(case["chain"]), case["final"]))
@@ -453,7 +535,8 @@ def run(ctx):
                             run_case(ctx, case)
     for i in ctx.cases(20000, 1000000):
         rng = ctx.case_rng(i)
-        run_case(ctx, gen_case(rng), sample=i < 2 * ctx.nshards)
+        case = gen_case(rng)
+        run_case(ctx, case, sample=i < 2 * ctx.nshards, second=gen_case(rng) if rng.random() < 0.12 else None)
 
 
 def replay(ctx, w):
